@@ -158,11 +158,22 @@ def _evaluate_require(ast, file_path, package_lua, lua_path=None):
             # first require() the Lua interpreter encounters.)
 
             if not use_game_loop:
-                reqd_lua.root.stats[:] = [
+                # Strip the game loop function definitions by removing their
+                # tokens (and the space and comments before them), then parse
+                # the remaining code again.
+                game_loop_stats = [
                     s for s in reqd_lua.root.stats
-                    if not isinstance(s, parser.StatFunction) or
-                    s.funcname.namepath[0].value not in GAME_LOOP_FUNCTION_NAMES]  # noqa: E501
-                reqd_lua.reparse(writer_cls=lua.LuaASTEchoWriter)
+                    if isinstance(s, parser.StatFunction) and
+                    len(s.funcname.namepath) == 1 and
+                    s.funcname.methodname is None and
+                    s.funcname.namepath[0].value in GAME_LOOP_FUNCTION_NAMES]
+                if game_loop_stats:
+                    tokens = list(reqd_lua.tokens)
+                    for s in reversed(game_loop_stats):
+                        del tokens[s.start_pos:s.end_pos]
+                    reqd_lua = lua.Lua.from_lines(
+                        lua.LuaEchoWriter(tokens=tokens, root=None).to_lines(),
+                        version=game.DEFAULT_VERSION)
 
             package_lua[require_path] = reqd_lua
             _evaluate_require(reqd_lua, reqd_filepath,
